@@ -21,6 +21,7 @@ ASSUMPTIONS = ["kernels that need an ISA extension the host lacks are recorded a
                "mod_1_1/2/3 kernels return an unnormalised two-limb residue: they are checked through the defining congruence, not byte for byte",
                "identical-to-oracle under every configuration implies identical across configurations"]
 BUDGET = {"quick": 900, "thorough": 6000}
+PASS_WEIGHT = {"rt": 10, "pin": 3}          # share of the tier's time budget (every shipped threshold vector runs in the rt pass)
 QUICK_VARIANTS = ["fat", "cpu-haswell", "alloca-debug"]
 THOROUGH_VARIANTS = ["fat", "assert", "alloca-debug", "alloca-malloc", "alloca-notreent"] + ["cpu-" + c for c in build.CPUS]
 
